@@ -180,6 +180,23 @@ class Bench:
 # C31 scrambling
 # =====================================================================================================
 
+def with_ss_reset(dut):
+    """Harness glue: declare the `ss` clock domain around a DUT so that its reset (ResetSignal("ss")) can be pulsed."""
+    from amaranth import Elaboratable, Module, ClockDomain
+
+    class Top(Elaboratable):
+        def __init__(self):
+            self.cd = ClockDomain("ss")
+
+        def elaborate(self, platform):
+            m = Module()
+            m.domains.ss = self.cd
+            m.submodules.dut = dut
+            return m
+    top = Top()
+    return top, top.cd.rst
+
+
 def _scfg(kind, seed, sync=False, maxlat=0):
     return {"kind": kind, "seed": seed, "start": seed, "sync": sync, "maxlat": maxlat}
 
@@ -202,9 +219,12 @@ def lfsr_bench(initial_value):
 
 
 def scrambler_bench(cls_name, initial_value):
+    """initial_value=None: the class is constructed without arguments (its documented default seed applies).
+    A stimulus record may carry "rst": the `ss` domain reset is asserted in that cycle (recorded as a restart, like clr)."""
     use_repo()
     from luna.gateware.usb.usb3.physical import scrambling
-    dut = getattr(scrambling, cls_name)(initial_value=initial_value)
+    dut = getattr(scrambling, cls_name)() if initial_value is None else getattr(scrambling, cls_name)(initial_value=initial_value)
+    top, rst = with_ss_reset(dut)
 
     async def proc(ctx, stim):
         rec = []
@@ -217,14 +237,17 @@ def scrambler_bench(cls_name, initial_value):
             ctx.set(dut.hold, st["h"])
             ctx.set(dut.enable, st["en"])
             ctx.set(dut.clear, st["clr"])
+            ctx.set(rst, int(bool(st.get("rst"))))
             r = {k: (bool(st[k]) if k != "w" else list(st[k])) for k in ("v", "r", "h", "en", "clr", "w")}
+            r["rst"] = bool(st.get("rst"))
+            r["clr"] = r["clr"] or r["rst"]           # a domain reset restarts the sequence exactly like `clear`
             r["ov"] = bool(ctx.get(dut.source.valid))
             r["ow"] = syms(ctx.get(dut.source.data), ctx.get(dut.source.ctrl))
             r["ir"] = bool(ctx.get(dut.sink.ready))
             rec.append(r)
             await ctx.tick("ss")
         return rec
-    return Bench(dut, proc)
+    return Bench(top, proc)
 
 
 def pipe_bench(seed):
@@ -519,6 +542,48 @@ def check_C31(rep):
                     tr = bench_for(cls, LFSR_SEED).run(stim)
                     rep.add_eval(len(tr))
                     items.append(({"cfg": _scfg("scr", LFSR_SEED), "steps": tr}, {"dut": cls, "origin": "sweep %s@%d" % (what, pos)}))
+    # configuration class: constructed without arguments (documented defaults: Scrambler 7DBDh, Descrambler FFFFh)
+    for cls, dflt in (("Scrambler", 0x7DBD), ("Descrambler", 0xFFFF)):
+        for _ in range(2 if quick else 10):
+            tr = bench_for(cls, None).run(scr_stimulus(rng, 100 if quick else 300))
+            rep.add_eval(len(tr))
+            rep.nontriv(("cfg", cls, "default-constructed"))
+            items.append(({"cfg": _scfg("scr", dflt), "steps": tr}, {"dut": "%s() [default seed %#x]" % (cls, dflt), "origin": "random"}))
+    # clear / enable / domain reset at unusual moments: alone, together with a stall, a hold, a COM-first word, an invalid
+    # cycle, in two consecutive cycles; enable dropped or raised for exactly one word right after a transfer
+    for what in ("clr", "clr+stall", "clr+hold", "clr+invalid", "clr*2", "rst", "rst+stall", "rst+hold", "en_off1", "en_on1"):
+        for pos in range(4):
+            words = [[0x31, 0x32, 0x133, 0x34], [COM, 0x41, 0x42, 0x43] if pos % 2 else [0x51, 0x52, 0x53, 0x54],
+                     [0x61, 0x162, 0x63, 0x64], [0x71, 0x72, 0x73, 0x74], [0, 0, 0, 0]]
+            stim = []
+            for k, w in enumerate(words):
+                base = {"v": True, "r": True, "h": False, "en": what != "en_on1", "clr": False, "w": list(w)}
+                if k == pos:
+                    key = "rst" if what.startswith("rst") else "clr"
+                    if what.startswith(("clr", "rst")):
+                        base[key] = True
+                    if what.endswith("+stall") and w[0] != COM:
+                        base["r"] = False
+                        stim.append(dict(base))
+                        base = dict(base, r=True)
+                        base[key] = False
+                    elif what.endswith("+hold") and w[0] != COM:
+                        base["h"] = True
+                    elif what.endswith("+invalid"):
+                        stim.append(dict(base, v=False))
+                        base["clr"] = False
+                    elif what == "clr*2":
+                        stim.append(dict(base, r=(w[0] == COM)))
+                    elif what == "en_off1":
+                        base["en"] = False
+                    elif what == "en_on1":
+                        base["en"] = True
+                stim.append(base)
+            for cls in ("Scrambler", "Descrambler"):
+                tr = bench_for(cls, LFSR_SEED).run(stim)
+                rep.add_eval(len(tr))
+                rep.nontriv(("ctl", cls, what, pos))
+                items.append(({"cfg": _scfg("scr", LFSR_SEED), "steps": tr}, {"dut": cls, "origin": "control sweep %s@%d" % (what, pos)}))
     # witness class for KF_C31_com_stall
     for _ in range(2 if quick else 10):
         stim = scr_stimulus(rng, 150, witness=True, en_prob=1.0)
@@ -917,6 +982,18 @@ def check_C33(rep):
         for _ in range(count):
             add(limit, "ctc", bench.run(link_schedule(rng, n, limit)),
                 {"dut": "CTCSkipInserter(SKIP_BYTE_LIMIT=%d)" % limit, "origin": "random"})
+    # class-constant value classes: multiple of 4 (12, 16, 64), = 2 mod 4 (10, 354), odd / 2^k+-1 (9, 15, 17, 33), tiny (5)
+    limit_classes = [9, 15, 16, 17, 33, 64, 5]
+    extra_limits = [limit_classes[rep.seed % len(limit_classes)], limit_classes[(rep.seed + 3) % len(limit_classes)]] if quick \
+        else limit_classes
+    for limit in extra_limits:
+        bench = ctctx_bench(limit)
+        rep.nontriv(("cfg", "SKIP_BYTE_LIMIT", limit))
+        for _ in range(2 if quick else 8):
+            add(limit, "ctc", bench.run(link_schedule(rng, 200 if quick else 500, limit)),
+                {"dut": "CTCSkipInserter(SKIP_BYTE_LIMIT=%d)" % limit, "origin": "random"})
+        for sched, origin in (link_sweep(limit)[::3 if quick else 1] if limit >= 9 else []):
+            add(limit, "ctc", bench.run(sched), {"dut": "CTCSkipInserter(SKIP_BYTE_LIMIT=%d)" % limit, "origin": origin})
     for limit in (12, SKIP_LIMIT):
         bench = ctctx_bench(limit)
         for sched, origin in link_sweep(limit) + (link_sweep(limit, 4) if limit != SKIP_LIMIT or not quick else []):
